@@ -40,7 +40,15 @@ def load_engine(prop: str):
 # ----------------------------------------------------------------------------- one run
 
 def run_one(engine, plan, scratch):
-    """Execute + judge one plan.  Returns (history, violations)."""
+    """Execute + judge one plan.  Returns (history, violations).
+    Engines whose subject is state that leaks inside the interpreter (ISOLATE = True) run every plan in a forked
+    child, so that one plan can never contaminate the next and every violation replays in a fresh interpreter."""
+    if getattr(engine, 'ISOLATE', False):
+        return _run_one_forked(engine, plan, scratch)
+    return _run_one_here(engine, plan, scratch)
+
+
+def _run_one_here(engine, plan, scratch):
     signal.signal(signal.SIGALRM, _alarm)
     signal.alarm(RUN_WALL_LIMIT)
     try:
@@ -50,6 +58,51 @@ def run_one(engine, plan, scratch):
     finally:
         signal.alarm(0)
     return history, violations
+
+
+def _run_one_forked(engine, plan, scratch):
+    import pickle
+    r, w = os.pipe()
+    sys.stdout.flush()
+    pid = os.fork()
+    if pid == 0:
+        code = 0
+        try:
+            os.close(r)
+            try:
+                out = ('ok', _run_one_here(engine, plan, scratch))
+            except RunTimeout:
+                out = ('timeout', None)
+            except BaseException:
+                out = ('error', traceback.format_exc())
+            with os.fdopen(w, 'wb') as f:
+                pickle.dump(out, f)
+        except BaseException:
+            code = 1
+        finally:
+            os._exit(code)
+    os.close(w)
+    data = b''
+    signal.signal(signal.SIGALRM, _alarm)
+    signal.alarm(RUN_WALL_LIMIT + 10)
+    try:
+        with os.fdopen(r, 'rb') as f:
+            data = f.read()
+        os.waitpid(pid, 0)
+    except RunTimeout:
+        os.kill(pid, signal.SIGKILL)
+        os.waitpid(pid, 0)
+        raise
+    finally:
+        signal.alarm(0)
+    if not data:
+        raise kernel.HarnessError('isolated run died without a result')
+    kind, val = pickle.loads(data)
+    if kind == 'ok':
+        return val
+    if kind == 'timeout':
+        raise RunTimeout()
+    raise kernel.HarnessError('isolated run failed:\n%s' % val)
 
 
 def _sig_hash(sig) -> int:
@@ -65,6 +118,21 @@ def _worker_init(repo_dir, scratch_base):
     d = tempfile.mkdtemp(prefix='w%d-' % os.getpid(), dir=scratch_base)
     _WORKER['scratch'] = d
     faulthandler.enable()
+    _preimport()
+
+
+def _preimport():
+    """Import every module of exactly_lib up front (imports only, nothing is executed): forked, isolated runs then
+    do not pay the lazy-import cost again and again."""
+    import pkgutil
+    import exactly_lib
+    for m in pkgutil.walk_packages(exactly_lib.__path__, 'exactly_lib.'):
+        if '.help' in m.name and 'contents' in m.name:
+            continue
+        try:
+            importlib.import_module(m.name)
+        except Exception:
+            pass
 
 
 def _work_chunk(args):
@@ -243,6 +311,8 @@ def _main(a, prop, repo_dir, scratch_base, t0):
     world_mod.install_fixed_environ()
     host.bootstrap(repo_dir)
     engine = load_engine(prop)
+    if getattr(engine, 'ISOLATE', False):
+        _preimport()
     if a.replay:
         ok, history, violations = replay(engine, a.replay, scratch_base)
         if ok:
